@@ -362,12 +362,55 @@ def _holder_class(cls):
     return _HolderClass(defaults) if defaults else None
 
 
+def _merge_displays(v, displays):
+    import copy
+    if isinstance(v, ast.Dict) and any(k is None for k in v.keys):
+        keys, vals = [], []
+        for k, x in zip(v.keys, v.values):
+            if k is None:
+                if not (isinstance(x, ast.Name) and isinstance(
+                        displays.get(x.id), ast.Dict) and not any(
+                        kk is None for kk in displays[x.id].keys)):
+                    return None
+                d = displays[x.id]
+                for kk, vv in zip(d.keys, d.values):
+                    # a later entry with the same key replaces the earlier
+                    txt = ast.unparse(kk)
+                    for j, ek in enumerate(keys):
+                        if ast.unparse(ek) == txt:
+                            vals[j] = copy.deepcopy(vv)
+                            break
+                    else:
+                        keys.append(copy.deepcopy(kk))
+                        vals.append(copy.deepcopy(vv))
+            else:
+                keys.append(k)
+                vals.append(x)
+        return ast.Dict(keys=keys, values=vals)
+    if isinstance(v, ast.BinOp) and isinstance(v.op, ast.Add):
+        parts = []
+        for side in (v.left, v.right):
+            if isinstance(side, ast.Name) and isinstance(
+                    displays.get(side.id), (ast.List, ast.Tuple)):
+                parts.append(displays[side.id])
+            elif isinstance(side, (ast.List, ast.Tuple)):
+                parts.append(side)
+            else:
+                return None
+        if type(parts[0]) is not type(parts[1]):
+            return None
+        return type(parts[0])(elts=[copy.deepcopy(e) for p_ in parts
+                                    for e in p_.elts], ctx=ast.Load())
+    return None
+
+
 def fold_module_tables(tree):
     """-> {dotted attribute text: constant AST} for the constant inliner;
     rewrites computable module-level assignments into literals."""
     env = {}
     attrs = {}
     rebound = {}
+    displays = {}
     for st in tree.body:
         for t in getattr(st, "targets", []) or []:
             for n in ast.walk(t):
@@ -402,6 +445,21 @@ def fold_module_tables(tree):
                 scope = {}
                 _bind(tgt, v, scope)
             except (_No, RecursionError):
+                # displays merged from other module-level displays whose
+                # entries are not plain data (classes, functions):
+                # {**A, **B} / A + B at the level of the syntax tree
+                merged = _merge_displays(st.value, displays)
+                if merged is not None and isinstance(tgt, ast.Name):
+                    a = ast.Assign(targets=[tgt], value=merged)
+                    ast.copy_location(a, st)
+                    ast.fix_missing_locations(a)
+                    new_body.append(a)
+                    displays[tgt.id] = merged
+                    continue
+                if isinstance(tgt, ast.Name) and isinstance(
+                        st.value, (ast.Dict, ast.List, ast.Tuple)) and \
+                        rebound.get(tgt.id, 0) == 1:
+                    displays[tgt.id] = st.value
                 new_body.append(st)
                 continue
             env.update(scope)
